@@ -549,6 +549,36 @@ def r21_evict(repo, sink, tier="quick"):
                ok=f"{cases} cases (1-2 consumers): history is cut exactly below the slowest consumer's last request, never while a consumer has not pulled",
                bad=worst or "", cases=cases)
     sink.floor("R21", "Output eviction cases", cases, 30)
+    # (b2) a long history: whatever thresholds the code contains (every integer constant of the module is a candidate), a consumer that
+    # has not pulled yet keeps every publication - a late first pull (a slow consumer next to an hourly source) asks for the oldest one
+    consts = [70]
+    for n_ in ast.walk(c.module.tree):
+        if isinstance(n_, ast.Constant) and isinstance(n_.value, int) and not isinstance(n_.value, bool) and 8 <= n_.value <= 4000:
+            consts.append(n_.value + 6)
+    worst_l = None
+    for n_long in sorted(set(consts)):
+        pos = ("eq", n_long - 1)
+        tgt_a, tgt_b = Obj(label="A"), Obj(label="B")
+        order = make_order(n_long, {Q: pos})
+        it = BufInterp(repo, order)
+        o = _output_obj(repo, n_long, ["ram"] * n_long, {tgt_a: None, tgt_b: None})
+        try:
+            paths = it.run_all(lambda: _run_keep(it, f, o, [Q, tgt_a], conn_key=True))
+        except (Undecided, AnalysisError) as u:
+            sink.unknown("R21", "evict:Output:long-history", f, f"outside vocabulary: {u}")
+            worst_l = "skip"
+            break
+        for _decs, (okind, val) in paths:
+            if okind == "raise":
+                worst_l = worst_l or f"history of {n_long} publications, request at the newest one: raises {val.name}"
+                continue
+            kept = len(val[1])
+            if kept != n_long:
+                worst_l = worst_l or (f"history of {n_long} publications, one consumer requests the newest one, the other registered consumer has not pulled yet: "
+                                      f"{n_long - kept} publications are dropped; the late consumer's first pull finds its data gone ('out of range')")
+    if worst_l != "skip":
+        sink.check(worst_l is None, "R21", "evict:Output:long-history", f,
+                   ok=f"histories of {sorted(set(consts))} publications: nothing is dropped while a registered consumer has not pulled", bad=worst_l or "")
     # (c) a push-based consumer pulls from inside the notification of the very publication: the history is cut then, too
     # (an output consumed only that way would otherwise never release anything)
     pd = repo.resolve(c, "push_data", "method")
